@@ -65,6 +65,15 @@ impl Analyzer
 			self.label_stack.push(vec![identifier.clone()]);
 		}
 
+		#[cfg(feature = "penne_verif")]
+		crate::verif_trace::emit(format!(
+			"{{\"ev\":\"ldecl\",\"line\":{},\"name\":\"{}\",\"clash\":{},\"depth\":{}}}",
+			identifier.location.line_number,
+			crate::verif_trace::esc(&identifier.name),
+			recoverable_error.is_some(),
+			self.label_stack.len(),
+		));
+
 		if let Some(error) = recoverable_error
 		{
 			Err(error)
@@ -82,6 +91,14 @@ impl Analyzer
 			if let Some(previous_identifier) =
 				scope.iter().find(|x| x.name == identifier.name)
 			{
+				#[cfg(feature = "penne_verif")]
+				crate::verif_trace::emit(format!(
+					"{{\"ev\":\"luse\",\"line\":{},\"name\":\"{}\",\"found\":true,\"target\":{},\"depth\":{}}}",
+					identifier.location.line_number,
+					crate::verif_trace::esc(&identifier.name),
+					previous_identifier.location.line_number,
+					self.label_stack.len(),
+				));
 				return Ok(Identifier {
 					resolution_id: previous_identifier.resolution_id,
 					is_authoritative: false,
@@ -89,6 +106,14 @@ impl Analyzer
 				});
 			}
 		}
+
+		#[cfg(feature = "penne_verif")]
+		crate::verif_trace::emit(format!(
+			"{{\"ev\":\"luse\",\"line\":{},\"name\":\"{}\",\"found\":false,\"target\":0,\"depth\":{}}}",
+			identifier.location.line_number,
+			crate::verif_trace::esc(&identifier.name),
+			self.label_stack.len(),
+		));
 
 		Err(Error::UndefinedLabel {
 			name: identifier.name,
@@ -99,11 +124,21 @@ impl Analyzer
 	fn push_scope(&mut self)
 	{
 		self.label_stack.push(Vec::new());
+		#[cfg(feature = "penne_verif")]
+		crate::verif_trace::emit(format!(
+			"{{\"ev\":\"lpush\",\"depth\":{}}}",
+			self.label_stack.len(),
+		));
 	}
 
 	fn pop_scope(&mut self)
 	{
 		self.label_stack.pop();
+		#[cfg(feature = "penne_verif")]
+		crate::verif_trace::emit(format!(
+			"{{\"ev\":\"lpop\",\"depth\":{}}}",
+			self.label_stack.len(),
+		));
 	}
 }
 
